@@ -1473,6 +1473,7 @@ func ioQueries(r *Rng, vis ioVis, thorough bool) []string {
 			add("page %s %s", h(p), rep(2, n/2+2))
 			add("page %s %s", h(p), rep(3, n/3+2))
 			add("page %s -1,-1", h(p))
+			add("page %s 1,9223372036854775807,1", h(p)) // one entry, then "the rest" asked for with the largest count there is
 			add("page %s %s", h(p), Pick(r, []string{"2,-1,-1,1", "1,0,0", "0,0,1", "1,2,3,4", "5,1", "-1,1,1", "1,-1,-1"}))
 			if r.Chance(1, 4) {
 				add("readfile %s", h(p))
@@ -1654,6 +1655,9 @@ func (t *ioTree) clearPlace() {
 }
 
 func runC15(c *Ctx) {
+	if c.From == nil {
+		runC15OS(c)
+	}
 	if c.From != nil {
 		for _, cs := range c.From {
 			hd := strings.Fields(cs[0])
@@ -1730,4 +1734,50 @@ func runC15(c *Ctx) {
 			emit(fmt.Sprintf("g%d_%s", i, s.tag), s.desc, t)
 		}
 	}
+}
+
+// io/fs conformance over the operating system (oracle only): a temp dir with files, nested
+// directories and symbolic links, seen through IOFS over BasePathFs(OsFs) and over a RegexpFs on
+// top of it; testing/fstest.TestFS checks, among other rules, that DirEntry.Type() equals
+// Info().Mode().Type() for every entry (the in-memory trees only ever have ModeDir).
+func runC15OS(c *Ctx) {
+	dir, err := os.MkdirTemp("", "afc15-")
+	if err != nil {
+		panic(err)
+	}
+	defer os.RemoveAll(dir)
+	for _, p := range []string{"a.txt", "d/b.txt", "d/e/c.txt", "z.dat"} {
+		os.MkdirAll(filepath.Join(dir, filepath.Dir(p)), 0o755)
+		os.WriteFile(filepath.Join(dir, p), []byte("content of "+p), 0o644)
+	}
+	os.Symlink("a.txt", filepath.Join(dir, "ln.txt"))
+	// (no link to a DIRECTORY: fstest reads every non-directory entry as a file, also over os.DirFS)
+	n := 0
+	for name, fsys := range map[string]afero.Fs{
+		"bp(os)":     afero.NewBasePathFs(afero.NewOsFs(), dir),
+		"re(bp(os))": afero.NewRegexpFs(afero.NewBasePathFs(afero.NewOsFs(), dir), regexp.MustCompile(`\.txt$`)),
+		"ro(bp(os))": afero.NewReadOnlyFs(afero.NewBasePathFs(afero.NewOsFs(), dir)),
+	} {
+		n++
+		c.Count("os-fstest")
+		expected := []string{"a.txt", "d/b.txt", "d/e/c.txt"}
+		if err := fstest.TestFS(afero.NewIOFS(fsys), expected...); err != nil {
+			first := strings.SplitN(err.Error(), "\n", 3)
+			msg := first[0]
+			if len(first) > 1 {
+				msg = first[1]
+			}
+			c.Oracle("FAIL osfs%d fstest:os:%s testing/fstest.TestFS over IOFS(%s) of a temp dir with symbolic links: %s", n, name, name, strings.Replace(msg, dir, "<dir>", -1))
+		}
+		// every listed entry: Type() is the type part of Info().Mode()
+		iofs := afero.NewIOFS(fsys)
+		if des, err := fs.ReadDir(iofs, "."); err == nil {
+			for _, de := range des {
+				if info, err := de.Info(); err == nil && de.Type() != info.Mode().Type() {
+					c.Oracle("FAIL osfs%d direntry-type:os:%s entry %q: Type() = %v, Info().Mode().Type() = %v", n, name, de.Name(), de.Type(), info.Mode().Type())
+				}
+			}
+		}
+	}
+	c.Extra["os_fstest"] = fmt.Sprintf("testing/fstest.TestFS over IOFS of %d stacks on a temp dir with symbolic links (oracle only)", n)
 }
